@@ -3,6 +3,7 @@ package main
 import (
 	"fmt"
 	"regexp"
+	"strconv"
 	"strings"
 	"sync"
 
@@ -173,6 +174,32 @@ func init() {
 			famHist(c, defaultCfg, 12000*c.Scale, 6, "s", false, allButVerrs, "setters", eachState)
 			famEdgeHist(c, defaultCfg, allButVerrs, "edge-pairs", false, eachState)
 			famByteValues(c, allButVerrs, eachState)
+			// beyond the property's quantifier (setter calls): states reached through SearchParams mutations, which write the
+			// query back. The write-back uses the query set for every scheme, so an apostrophe stays literal in a special URL's
+			// query and is escaped by the re-parse (C04_searchparams_mutation_refuted, a documented observation): those states
+			// are left out, every other one must round-trip.
+			eachStateSP := func(d *Driver, hc histCase, h *implHist, steps []Step, start Obs) {
+				for k, s := range steps {
+					for _, f := range liveSlots(s) {
+						if f[fSpecial] == "1" && strings.Contains(f[fQuery], "'") {
+							continue
+						}
+						check(hc, k, f)
+					}
+				}
+			}
+			famHist(c, defaultCfg, 5000*c.Scale, 6, "sspp", false, allButVerrs, "setters+searchparams", eachStateSP)
+			{
+				starts := []string{"data:text/plain,hello  ?x=1", "sc:opaque \t ?x=1&x=2", "mailto:a@b  ?x", "http://h/p?x=1", "sc://h/p  ?x=1", "file:///C:/a ?x=1", "sc:/p?x=1#f", "data:x  ?x=1#f"}
+				tails := [][]Op{{{K: "d", A: "x"}}, {{K: "d", A: "x"}, {K: "a", A: "y", B: " "}}, {{K: "t", A: "x", B: ""}, {K: "d", A: "x"}}, {{K: "o"}}, {{K: "d", A: "x"}, {K: "s", W: 8, A: ""}}, {{K: "s", W: 8, A: ""}, {K: "d", A: "x"}}, {{K: "d", A: "x"}, {K: "s", W: 7, A: ""}}, {{K: "T"}, {K: "s", W: 7, A: ""}, {K: "a", A: "", B: ""}, {K: "d", A: ""}}}
+				c.Pool.Run(len(starts)*len(tails), func(d *Driver, i int) {
+					st, ops := starts[i%len(starts)], tails[i/len(starts)]
+					hc := histCase{defaultCfg, nil, st, ops, "searchparams-empty-list", i}
+					if h, steps, so := c.cmpHist(d, defaultCfg, nil, st, ops, allButVerrs, "searchparams-empty-list", i); h != nil {
+						eachStateSP(d, hc, h, steps, so)
+					}
+				})
+			}
 		},
 		rule:   "parse results (WPT + generated inputs, with and without base) and every state of generated setter histories (1-6 of the nine setters, values from component generators); for each state Parse(Href(false)) must succeed and reproduce all 19 observables; distinct = distinct (start, op list); non-trivial = start parsed and at least one setter applied, or parse got past the scheme state",
 		assume: []string{"the two states in which the standard's own algorithms do not round-trip (file URL with first segment X|, file URL with host localhost; both reachable only through the protocol setter) are recognised by shape, accepted only when the extracted Spec's setter steps reach the very same state on the same history, and there the re-parse must differ from the state in exactly that normalisation and nothing else"},
@@ -473,6 +500,89 @@ func init() {
 					c13Replay(c, hc)
 				})
 			}
+			// the public method BasicParser called directly (what Url.Parse and the setters do internally): whatever the state
+			// override, the parser making the call (also another one than the one that produced the values) and the input, the
+			// base value and the original of the clone being filled are unchanged
+			{
+				names := []string{"", "collapse", "lax+collapse", "skipDrive+skipTrailSlash", "specialAdd", "report", "singlePct+acceptInvalid", "allowPathNonBase"}
+				var cfgs []*Cfg
+				for _, n := range names {
+					if n == "" {
+						cfgs = append(cfgs, defaultCfg)
+					} else {
+						cfgs = append(cfgs, cfgFromDesc(n))
+					}
+				}
+				rng := NewRng(c.Seed ^ 0xf4a3e)
+				c.Pool.Run(12000*c.Scale, func(d *Driver, i int) {
+					r := rng.Fork(i)
+					maker, caller := cfgs[r.Intn(len(cfgs))], cfgs[r.Intn(len(cfgs))]
+					if r.Chance(1, 2) {
+						caller = maker
+					}
+					st := r.startURL()
+					if r.Chance(1, 4) {
+						st = r.Pick([]string{"http://example.com/a//b", "http://example.com/a/", "file:///C:/a//", "sc://h/a//b/", "http://h//", "file://h/a/b/", "sc:/a/b", "http://u:p@h:8/a/b/?q#f"})
+					}
+					orig, err := implParseURL(maker.Parser, nil, st)
+					if err != nil || orig == nil {
+						return
+					}
+					var base *url.Url
+					bs := ""
+					if r.Chance(1, 2) {
+						bs = r.base()
+						if r.Chance(1, 3) {
+							bs = r.Pick([]string{"http://example.com/a//b", "http://example.com/a/", "file:///C:/a//b", "sc://h/a//b/"})
+						}
+						if base, err = implParseURL(maker.Parser, nil, bs); err != nil {
+							base = nil
+						}
+					}
+					var target *url.Url
+					how := "nil"
+					switch r.Intn(3) {
+					case 0:
+						target, how = orig.Clone(), "a clone of "+strconv.Quote(st)
+					case 1:
+						if t, err := orig.Parse(r.Pick([]string{"", "#f", "?q", "x", "./", "../y"})); err == nil {
+							target, how = t, "a resolution result of "+strconv.Quote(st)
+						}
+					}
+					ov := r.Intn(22)
+					if target != nil && r.Chance(2, 3) {
+						ov = setterStates[r.Intn(len(setterStates))]
+					}
+					var input string
+					switch r.Intn(4) {
+					case 0:
+						input = r.relRef()
+					case 1:
+						input = r.Pick([]string{"x", "c", "..", "/x//y", "//h2/p", "?q2", "#f2", "a/b", "\\x", "%2e%2e/z", "C|/x"})
+					default:
+						input = r.setterValue(r.Intn(9))
+					}
+					before, bbefore := obsLeft(orig), []string(nil)
+					if base != nil {
+						bbefore = obsLeft(base)
+					}
+					func() {
+						defer func() { recover() }()
+						caller.Parser.BasicParser(input, base, target, url.State(ov))
+					}()
+					c.Count("directframe\x00"+maker.Desc+"\x00"+caller.Desc+"\x00"+st+"\x00"+bs+"\x00"+input+"\x00"+how+strconv.Itoa(ov), true, "direct-frame:"+stateNames[ov])
+					call := fmt.Sprintf("BasicParser(%q, base=%q, url=%s, State%s) by a parser with options [%s] on values made by a parser with options [%s]", input, bs, how, stateNames[ov], caller.Desc, maker.Desc)
+					cs := Case{Kind: "direct", Cfg: caller.Desc, Input: input, Family: "direct-frame", Index: i, Extra: map[string]string{"call": call, "start": st, "base": bs}}
+					if after := obsLeft(orig); strings.Join(after, "\x00") != strings.Join(before, "\x00") {
+						c.Report(Finding{Class: "violation", What: "a direct parser call on a value derived from a URL changed that URL: " + call + fmt.Sprintf(": %q -> %q", before, after), Case: cs})
+					}
+					if base != nil {
+						if after := obsLeft(base); strings.Join(after, "\x00") != strings.Join(bbefore, "\x00") {
+							c.Report(Finding{Class: "violation", What: "a direct parser call changed its base: " + call + fmt.Sprintf(": %q -> %q", bbefore, after), Case: cs})
+						}
+					}
+				})
+			}
 		},
 		rule: "generated histories over two live handles (B := A.Parse(ref), other := x.Clone()) followed by setters / SearchParams operations / in-place resolutions on either; after each step every observable of the handle not operated on must be unchanged, and both handles are compared with the value-semantics model",
 	}
@@ -620,10 +730,11 @@ func c13Replay(c *Ctx, hc histCase) {
 	}
 }
 
-// c12Agree re-executes a two-slot history and evaluates, after EVERY step and for BOTH live URLs, that the URL and the
-// handle obtained from it first describe the same query: the handle is still the URL's handle, and whenever the last
-// operation on that URL was a SearchParams mutation, SetSearchParams or SetSearch, Query() is the list's serialization
-// (resp. the list is the parse of the query).
+// c12Agree re-executes a two-slot history and evaluates, after EVERY step and for BOTH live URLs (not only the one
+// operated on), that the URL and its parameter list describe the same query: when the last write to that URL's query or
+// list was a SearchParams mutation or SetSearchParams, Query() is the list's serialization; when it was a parse, a
+// resolution or SetSearch, the list (once it exists) is the form-urlencoded parse of the query. The handle obtained from
+// a URL first must remain that URL's handle.
 func c12Agree(c *Ctx, hc histCase) {
 	defer func() { recover() }()
 	var u *url.Url
@@ -639,51 +750,66 @@ func c12Agree(c *Ctx, hc histCase) {
 	h := &implHist{}
 	h.u[0] = u
 	var first [2]*url.SearchParams
+	var cur [2]*url.Url
+	mode := [2]string{"query", "query"}
 	for k, o := range hc.ops {
+		prev := h.u
 		h.step(o)
+		// who was written, and how (an operation that fails or finds an empty slot writes nothing)
+		switch o.K {
+		case "a", "d", "t", "o", "O":
+			if h.u[o.Slot] != nil {
+				mode[o.Slot] = "list"
+			}
+		case "A":
+			if h.u[o.Slot] != nil && h.u[1-o.Slot] != nil {
+				mode[o.Slot] = "list"
+			}
+		case "s":
+			if o.W == 7 && h.u[o.Slot] != nil {
+				mode[o.Slot] = "query"
+			}
+		case "r":
+			if h.u[o.Slot] != prev[o.Slot] {
+				mode[o.Slot] = "query"
+			}
+		case "R":
+			if h.u[1] != prev[1] {
+				mode[1] = "query"
+			}
+		case "c":
+			if h.u[1-o.Slot] != prev[1-o.Slot] {
+				mode[1-o.Slot] = mode[o.Slot]
+			}
+		}
 		for sl := 0; sl < 2; sl++ {
 			x := h.u[sl]
+			if x != cur[sl] { // the slot holds another URL value now
+				cur[sl], first[sl] = x, nil
+			}
 			if x == nil || h.sp[sl] == nil {
-				first[sl] = nil
 				continue
 			}
 			if first[sl] == nil {
 				first[sl] = h.sp[sl]
 			}
-			if first[sl] != h.sp[sl] { // the slot holds a new URL value (clone / resolution result)
-				first[sl] = h.sp[sl]
-			}
 			if x.SearchParams() != first[sl] {
-				c.Report(Finding{Class: "violation", What: fmt.Sprintf("after %s the handle obtained earlier is no longer the URL's SearchParams (slot %d)", o.String(), sl), Case: hc.Case(k)})
+				c.Report(Finding{Class: "violation", What: fmt.Sprintf("after %s the handle obtained earlier is no longer the SearchParams of URL %s", o.String(), "AB"[sl:sl+1]), Case: hc.Case(k)})
 				return
 			}
-		}
-		wrote := o.Slot
-		if o.K == "R" || o.K == "c" || o.K == "r" || o.K == "q" || o.K == "T" {
-			continue
-		}
-		x := h.u[wrote]
-		if x == nil || (o.K == "A" && h.u[1-wrote] == nil) {
-			continue
-		}
-		sp := h.handle(wrote)
-		if o.K == "s" && o.W != 7 {
-			continue
-		}
-		if o.K == "s" {
-			want := formParse(x.Query())
-			if o.A == "" {
-				want = nil
+			sp := first[sl]
+			if mode[sl] == "list" {
+				if ser := sp.String(); x.Query() != ser {
+					c.Report(Finding{Class: "violation", What: fmt.Sprintf("after %s URL %s has Query()=%q but its parameter list serializes to %q", o.String(), "AB"[sl:sl+1], x.Query(), ser), Case: hc.Case(k)})
+					return
+				}
+			} else if !hc.cfg.acceptsInvalid() {
+				want := formParse(x.Query())
+				if got := pairsNoUpdate(sp); strings.Join(got, "\x00") != strings.Join(want, "\x00") {
+					c.Report(Finding{Class: "violation", What: fmt.Sprintf("after %s the parameter list of URL %s is %q, the form-urlencoded parse of its query %q is %q", o.String(), "AB"[sl:sl+1], got, x.Query(), want), Case: hc.Case(k)})
+					return
+				}
 			}
-			if got := pairsNoUpdate(sp); strings.Join(got, "\x00") != strings.Join(want, "\x00") {
-				c.Report(Finding{Class: "violation", What: fmt.Sprintf("after %s the parameter list is %q, the form-urlencoded parse of the query %q is %q", o.String(), got, x.Query(), want), Case: hc.Case(k)})
-				return
-			}
-			continue
-		}
-		if ser := sp.String(); x.Query() != ser {
-			c.Report(Finding{Class: "violation", What: fmt.Sprintf("after %s Query()=%q but the URL's parameter list serializes to %q", o.String(), x.Query(), ser), Case: hc.Case(k)})
-			return
 		}
 	}
 }
